@@ -14,7 +14,8 @@ open CopVerif.Model.Serial
 open CopVerif.Gen.Serial
 
 /-- the generated tables; `upper` is Python's `str.upper`. -/
-def genTables (upper : String → String) : Tables := { fams := families, biv := bivTable, upper := upper }
+def genTables (upper : String → String) : Tables :=
+  { fams := families, biv := bivTable, upper := upper, gaussNoArg := gaussCtorNoArgs, vineNoArg := vineCtorNoArgs }
 
 /-! ## JSON -/
 private theorem enc_head (v : V) (h : isJson v = true) :
@@ -682,7 +683,9 @@ theorem vine_not_json (s : Vine) (hf : s.fitted = true) (hne : s.trees ≠ []) (
 /-! ### round trips -/
 
 /-- **Round trip.**  For every reachable state `m` of every class (`ModelWF`: see
-    `CopVerif.Model.Serial` §8), `to_dict` succeeds, the entry point of `m`'s kind rebuilds a model
+    `CopVerif.Model.Serial` §8), `to_dict` succeeds, the entry point of `m`'s kind
+    (`Univariate.from_dict`, `Bivariate.from_dict`, `GaussianMultivariate.from_dict`,
+    `VineCopula.from_dict`) rebuilds a model
     with the same observable state, and that model is again a reachable state. -/
 theorem roundtrip (T : Tables) (m : Model) (h : ModelWF T m) :
     ∃ d m', m.toDict T = some d ∧ fromDict T m.entry d = some m' ∧ m'.obs = m.obs ∧ ModelWF T m' ∧
@@ -699,34 +702,10 @@ theorem roundtrip (T : Tables) (m : Model) (h : ModelWF T m) :
     exact ⟨d, .biv b, hd, by simp [fromDict, Model.entry, hf], rfl, h, rfl⟩
   | gauss g =>
     obtain ⟨d, g', hd, hf, ho, hw⟩ := gauss_trip T.fams g h
-    refine ⟨d, .gauss g', hd, ?_, by simp [Model.obs, ho], hw, rfl⟩
-    have hfit := h.fitted
-    simp only [Gauss.toDict, hfit, if_true] at hd
-    cases hu : g.univariates.mapM UniRef.toDict with
-    | none => simp [hu] at hd
-    | some us =>
-      simp only [hu, Option.map_some, Option.some.injEq] at hd
-      subst hd
-      simp only [fromDict, Model.entry, multivariateFromDict, lookup]
-      simp [hf]
+    exact ⟨d, .gauss g', hd, by simp [fromDict, Model.entry, hf], by simp [Model.obs, ho], hw, rfl⟩
   | vine s =>
     obtain ⟨d, s', hd, hf, ho, hw, _⟩ := vine_trip T.fams s h
-    refine ⟨d, .vine s', hd, ?_, by simp [Model.obs, ho], hw, rfl⟩
-    have hne : vineQual ≠ gaussQual := by decide
-    unfold Vine.toDict at hd
-    split at hd
-    · cases hu : s.unis.mapM Uni.toDict with
-      | none => simp [hu] at hd
-      | some us =>
-        simp only [hu, Option.map_some, Option.some.injEq] at hd
-        subst hd
-        simp only [List.cons_append, List.nil_append] at hf
-        simp only [fromDict, Model.entry, multivariateFromDict, List.cons_append, List.nil_append, lookup]
-        simp [hne, hf]
-    · simp only [Option.some.injEq] at hd
-      subst hd
-      simp only [fromDict, Model.entry, multivariateFromDict, lookup]
-      simp [hne, hf]
+    exact ⟨d, .vine s', hd, by simp [fromDict, Model.entry, hf], by simp [Model.obs, ho], hw, rfl⟩
 
 /-- **Any number of round trips** (induction on the number of trips). -/
 theorem roundtrip_iter (T : Tables) (n : Nat) (m : Model) (h : ModelWF T m) :
@@ -790,7 +769,8 @@ private theorem find_family_qual (fams : List Family) (q : String) (F : Family)
 /-- **Dispatch.**  The generic entry points build the class named in the dict:
     `Univariate.from_dict` the family whose qualified name is `d['type']`,
     `Bivariate.from_dict` the subclass whose `copula_type` is the member `d['copula_type'].upper()`,
-    `Multivariate.from_dict` a Gaussian or a vine according to `d['type']`. -/
+    `Multivariate.from_dict` a Gaussian or a vine according to `d['type']` — provided the named
+    class can be instantiated without arguments (see `generic_dispatch_multivariate`). -/
 theorem dispatch (T : Tables) (d : V) :
     (∀ u, uniFromDict T.fams d = some u →
         ∃ kvs q, d = .dict kvs ∧ lookup kvs "type" = some (.str q) ∧ u.fam.qual = q ∧ u.fitted = true) ∧
@@ -799,7 +779,8 @@ theorem dispatch (T : Tables) (d : V) :
           T.biv.classOf (T.upper s) = some b.cls) ∧
     (∀ m, multivariateFromDict T d = some m →
         ∃ kvs q, d = .dict kvs ∧ lookup kvs "type" = some (.str q) ∧
-          ((q = gaussQual ∧ ∃ g, m = .gauss g) ∨ (q = vineQual ∧ ∃ s, m = .vine s))) := by
+          ((q = gaussQual ∧ T.gaussNoArg = true ∧ ∃ g, m = .gauss g) ∨
+           (q = vineQual ∧ T.vineNoArg = true ∧ ∃ s, m = .vine s))) := by
   refine ⟨?_, ?_, ?_⟩
   · intro u hu
     cases d with
@@ -861,18 +842,76 @@ theorem dispatch (T : Tables) (d : V) :
           simp only [ht] at hm
           by_cases hg : q = gaussQual
           · simp only [hg, if_true] at hm
-            cases hgf : gaussFromDict T.fams (.dict kvs) with
-            | none => simp [hgf] at hm
-            | some g => simp [hgf] at hm; exact ⟨kvs, q, rfl, ht, Or.inl ⟨hg, g, hm.symm⟩⟩
+            by_cases hn : T.gaussNoArg = true
+            · simp only [hn, if_true] at hm
+              cases hgf : gaussFromDict T.fams (.dict kvs) with
+              | none => simp [hgf] at hm
+              | some g => simp [hgf] at hm; exact ⟨kvs, q, rfl, ht, Or.inl ⟨hg, hn, g, hm.symm⟩⟩
+            · simp [hn] at hm
           · simp only [hg, if_false] at hm
             by_cases hv : q = vineQual
             · simp only [hv, if_true] at hm
-              cases hvf : vineFromDict T.fams (.dict kvs) with
-              | none => simp [hvf] at hm
-              | some s => simp [hvf] at hm; exact ⟨kvs, q, rfl, ht, Or.inr ⟨hv, s, hm.symm⟩⟩
+              by_cases hn : T.vineNoArg = true
+              · simp only [hn, if_true] at hm
+                cases hvf : vineFromDict T.fams (.dict kvs) with
+                | none => simp [hvf] at hm
+                | some s => simp [hvf] at hm; exact ⟨kvs, q, rfl, ht, Or.inr ⟨hv, hn, s, hm.symm⟩⟩
+              · simp [hn] at hm
             · simp [hv] at hm
         | _ => simp [ht] at hm
     | _ => simp [multivariateFromDict] at hm
+
+/-- **Generic multivariate dispatch.**  `Multivariate.from_dict(d)` first runs
+    `get_instance(d['type'])`, i.e. calls the named class *without arguments*.  For a Gaussian dict
+    it then coincides with `GaussianMultivariate.from_dict` (the generated table says the
+    constructor needs no argument).  For a vine dict it coincides with `VineCopula.from_dict` iff
+    `VineCopula()` is possible; **as found it is not** (`vine_type` is a required positional
+    argument), so the generic entry point raises `TypeError` on every vine dict, fitted or not —
+    a violation of "the generic from_dict entry points dispatch on the recorded type", although
+    `VineCopula.from_dict(d)` succeeds (`roundtrip`). -/
+theorem generic_dispatch_multivariate (T : Tables) :
+    (∀ (g : Gauss) d, g.toDict = some d →
+        fromDict T .multivariate d = if T.gaussNoArg then fromDict T .gaussian d else Option.none) ∧
+    (∀ (s : Vine) d, s.toDict = some d →
+        fromDict T .multivariate d = if T.vineNoArg then fromDict T .vine d else Option.none) ∧
+    gaussCtorNoArgs = true := by
+  have hne : vineQual ≠ gaussQual := by decide
+  refine ⟨?_, ?_, rfl⟩
+  · intro g d hd
+    unfold Gauss.toDict at hd
+    split at hd
+    · cases hu : g.univariates.mapM UniRef.toDict with
+      | none => simp [hu] at hd
+      | some us =>
+        simp only [hu, Option.map_some, Option.some.injEq] at hd
+        subst hd
+        simp only [fromDict, multivariateFromDict, lookup]
+        simp
+    · simp at hd
+  · intro s d hd
+    unfold Vine.toDict at hd
+    split at hd
+    · cases hu : s.unis.mapM Uni.toDict with
+      | none => simp [hu] at hd
+      | some us =>
+        simp only [hu, Option.map_some, Option.some.injEq] at hd
+        subst hd
+        simp only [fromDict, multivariateFromDict, List.cons_append, List.nil_append, lookup]
+        simp [hne]
+    · simp only [Option.some.injEq] at hd
+      subst hd
+      simp only [fromDict, multivariateFromDict, lookup]
+      simp [hne]
+
+/-- **Counter-example (as found).**  With a vine constructor that needs an argument, the generic
+    entry point fails on the dict of *every* vine while the class's own entry point rebuilds it. -/
+theorem generic_dispatch_vine_counterexample (T : Tables) (hT : T.vineNoArg = false) (s : Vine)
+    (h : VineWF T.fams s) :
+    ∃ d s', s.toDict = some d ∧ fromDict T .vine d = some (.vine s') ∧ fromDict T .multivariate d = Option.none := by
+  obtain ⟨d, s', hd, hf, _, _, _⟩ := vine_trip T.fams s h
+  refine ⟨d, s', hd, by simp [fromDict, hf], ?_⟩
+  rw [(generic_dispatch_multivariate T).2.1 s d hd]
+  simp [hT]
 
 /-- the generated tables are dispatch-complete: every family is found under its own qualified
     name (no two families share one), every `CopulaTypes` member has exactly the subclass that
